@@ -20,13 +20,21 @@ DTD = 'util::date::convert::date_to_days'
 I32 = {'k': 'int', 's': True, 'bits': 32, 'name': 'i32'}
 CUM = [0, 31, 59, 90, 120, 151, 181, 212, 243, 273, 304, 334]
 LEN = [31, 28, 31, 30, 31, 30, 31, 31, 30, 31, 30, 31]
-KMAX = 14_000            # 400 * 14_000 < 5_879_611: every class stays inside the valid year range
+KMAX = 14_698            # 400 * 14_698 + 402 < 5_879_611: every class stays inside the valid year range; the last 11 years of each era are analysed one by one
 
 
 def leap_oracle(era, j):
     a = j if era > 0 else -(j - 1)          # astronomical year modulo 400 (BC year y is astronomical y + 1)
     a = abs(a)
     return a % 4 == 0 and (a % 100 != 0 or a % 400 == 0)
+
+
+def daynum(y, m, d):
+    """the calendar definition: days since 0001-01-01 in the proleptic Gregorian calendar without a year 0"""
+    a = y if y > 0 else y + 1
+    leap = a % 4 == 0 and (a % 100 != 0 or a % 400 == 0)
+    b = a - 1
+    return 365 * b + b // 4 - b // 100 + b // 400 + CUM[m - 1] + (1 if (m > 2 and leap) else 0) + d - 1, leap
 
 
 def check_day_count(ctx, Numeric):
@@ -56,18 +64,27 @@ def check_day_count(ctx, Numeric):
                 per_month.setdefault(int(ml), []).append((D.get_iv(st, dv), D.aff_of(rv[2][0][0][1]), dv))
         return per_month
 
-    def analyse(label, per_month, leap):
+    def analyse(label, per_month, leap, exact_year=None):
         base = None
         for m in range(1, 13):
             got = per_month.get(m, [])
             want_len = LEN[m - 1] + (1 if (m == 2 and leap) else 0)
+            want_lo = 1
+            if exact_year is not None:
+                # at the ends of the range only the dates whose day number fits an i32 exist
+                okd = [d for d in range(1, want_len + 1) if -(1 << 31) <= daynum(exact_year, m, d)[0] <= (1 << 31) - 1]
+                if not okd:
+                    if got:
+                        problems.append((label, f'month {m} is accepted although none of its days is representable'))
+                    continue
+                want_lo, want_len = okd[0], okd[-1]
             if not got:
                 problems.append((label, f'month {m} is never accepted'))
                 continue
             lo = min(iv[0] for iv, _a, _d in got)
             hi = max(iv[1] for iv, _a, _d in got)
-            if (lo, hi) != (1, want_len):
-                problems.append((label, f'month {m}: days {lo}..={hi} are accepted, the calendar has 1..={want_len}'))
+            if (lo, hi) != (want_lo, want_len):
+                problems.append((label, f'month {m}: days {lo}..={hi} are accepted, the calendar has {want_lo}..={want_len}'))
             for iv, aff, dv in got:
                 b = D.aff_add(D.aff_add(aff, D.Aff({dv: 1}, 0), -1), D.aff_const(CUM[m - 1] + (1 if (m > 2 and leap) else 0) - 1), -1)
                 if dv in b.co:
@@ -93,6 +110,16 @@ def check_day_count(ctx, Numeric):
         pm = run(label, lambda I_, st, ty, yconst=yconst: const_int(yconst, 'i32'))
         leap = leap_oracle(-1, -yconst)
         bases[('c', yconst)] = (analyse(label, pm, leap), leap)
+    # the last years of both eras, one by one, with the i32 range of the day number as the only extra limit
+    nedge = 0
+    for yconst in list(range(5_879_601, 5_879_613)) + list(range(-5_879_612, -5_879_600)):
+        label = f'{DTD}[year {yconst}]'
+        pm = run(label, lambda I_, st, ty, yconst=yconst: const_int(yconst, 'i32'))
+        nedge += 1
+        d1, leap = daynum(yconst, 1, 1)
+        b = analyse(label, pm, leap, exact_year=yconst)
+        if b is not None and (b.co or b.c0 != d1):
+            problems.append((label, f'1 January is day {b}, the calendar says {d1}'))
 
     def shifted(aff):      # k -> k + 1
         return D.Aff(dict(aff.co), aff.c0 + aff.co.get(KV, 0))
@@ -128,9 +155,9 @@ def check_day_count(ctx, Numeric):
         oklinks += 1
     else:
         problems.append(('epoch', f'0001-01-01 is not day 0 ({b1})'))
-    nclasses = len(classes) + 2
+    nclasses = len(classes) + 2 + nedge
     bad_classes = {p[0] for p in problems}
-    ctx.rule('C01-B date_to_days per residue class of the 400-year cycle: accepted days and linear shape', nclasses, nclasses - len([c for c in bad_classes if c.startswith(DTD)]), floor=802)
+    ctx.rule('C01-B date_to_days per residue class of the 400-year cycle: accepted days and linear shape', nclasses, nclasses - len([c for c in bad_classes if c.startswith(DTD)]), floor=826)
     ctx.rule('C01-B consecutive years are 365/366 days apart in every cycle, no year 0, 0001-01-01 = 0', nlinks, oklinks, floor=803)
     seen = set()
     for name, msg in problems:
